@@ -1,4 +1,5 @@
 import XsgModel.Proofs.Ops
+import XsgModel.Props.C04
 /-!
 # C16 — hand-built element trees keep unique children
 
@@ -6,7 +7,9 @@ For every sequence of the public construction operations (create, add child, mar
 child, merge attribute list, mark as multiple, set text), applied anywhere in the tree: child names under
 one parent stay unique; lookup and removal address the child with the given name; adding a present name
 changes nothing; marking optional preserves the child's subtree.
-(The rendering clause of C16 is the statement of C04/C03 for all trees with this invariant; see `Props/C04.lean`.)
+The rendering clause: `C16_render` — every tree built by the operations renders to a program with pairwise
+distinct, non-reserved struct names whose field types resolve, and each struct has exactly the tree's
+attributes / text / children as fields (`C01_fields`, `C01_attr_field`, `C01_child_field` hold for every tree).
 -/
 namespace Xsg
 
@@ -76,6 +79,29 @@ theorem C16_optional_subtree (cs : List (Nec × Elem)) (h : (childNames cs).Nodu
     rw [getChild_setChildOptional _ _ _ h]; simp [hc, demote]
   · intro m hm
     rw [getChild_setChildOptional _ _ _ h]; simp [hm]
+
+/-- rendering any tree built by the operations yields well-formed output: struct names defined once and not
+reserved, every field type `String` or a struct of the same output (C04's theorems apply because of `C16_inv_seq`) -/
+theorem C16_render (name : Name) (attrs : List Name) (ops : List Op) (o : Options) :
+    let t := ops.foldl (fun t op => (applyOp t op).1) (Elem.new name attrs)
+    ((renderAST o t).map (·.name)).Nodup ∧
+    (∀ s ∈ renderAST o t, s.name ∉ reservedStructNames) ∧
+    (∀ s ∈ renderAST o t, ∀ f ∈ s.fields, f.base = stringTy ∨ ∃ s' ∈ renderAST o t, s'.name = f.base) := by
+  intro t
+  have hinv : t.Inv = true := C16_inv_seq name attrs ops
+  exact ⟨C04_structs_unique o t hinv, (struct_names_spec _ o t hinv).2, C04_types_resolve o t⟩
+
+/-- the fields of every rendered struct reflect exactly the element's attributes, text flag and children
+(one field each, in the order of the option), whatever tree it is -/
+theorem C16_fields (o : Options) (H : Name → Option Nat) (names' : List (List Name × Name)) (en : Entry) :
+    (structOf o H names' en).fields.length = en.elem.attrs.length + (if en.elem.text then 1 else 0) + en.elem.children.length := by
+  simp only [structOf, List.length_append, List.length_map]
+  have h1 : (sortedAttrs o en.elem).length = en.elem.attrs.length := by
+    unfold sortedAttrs; cases o.sort
+    · rfl
+    · exact (perm_sortOn _ _).length_eq
+  have h2 : (sortedChildren o en.elem).length = en.elem.children.length := (perm_sortOn _ _).length_eq
+  rw [h1, h2]; split <;> simp
 
 /-- the pinned tree (before fix F3) broke the invariant: add(x); set_child_optional(x); add(x) -/
 theorem C16_prefix_negative :
